@@ -1,4 +1,4 @@
-import GateryModel.C03.LemmasSMul
+import GateryModel.C03.LemmasIf
 /-!
 # C03 — property theorems: operators compute their mathematical definition at every width
 
@@ -224,6 +224,22 @@ theorem signed_abs_correct (a : BV4) (hl : 1 ≤ a.length) (ha : a.allDef = true
     sabs a = .ok (ofNat a.length (mag a)) ∧ a.toInt = (if a.bit (a.length - 1) = .t then -((mag a : Nat) : Int) else (mag a : Nat)) :=
   ⟨sabs_eq a hl ha, toInt_eq_mag a hl ha⟩
 
+/-! ## frontend: conditional assignment chains (`IF`, `ConditionalScope`) -/
+
+/-- `x = d; IF (sel == k₁) x = a₁; IF (sel == k₂) x = a₂; …` (compare nodes feeding 2-input multiplexers) is the sequential
+    program it spells: the **last** assignment whose `kⱼ` equals the selector wins — any chain length, repeated `k` included.
+    (`hs`: the literals are `uint64_t` values that fit the selector, all assigned values have the width of `x`.) -/
+theorem if_chain_correct (sel : BV4) (w : Nat) (steps : List (Nat × BV4)) (d : BV4) (hsel : sel.allDef = true) (hd : d.length = w)
+    (hs : ∀ ka ∈ steps, ka.1 < 2 ^ 64 ∧ (uintLit ka.1).length ≤ sel.length ∧ ka.2.length = w) :
+    ifChain .none sel d steps = .ok (Spec.ifChain sel d steps) :=
+  ifChain_eq_spec sel w steps d hsel hd hs
+
+/-- `x = d; IF (c₁) x = a₁; IF (c₂) x = a₂; …` with defined conditions: a later true condition overrides an earlier one -/
+theorem if_prio_correct (w : Nat) (steps : List (BV4 × BV4)) (d : BV4) (hd : d.length = w)
+    (hs : ∀ ca ∈ steps, (ca.1.bit 0).isDef = true ∧ ca.1.length = 1 ∧ ca.2.length = w) :
+    ifPrio d steps = Spec.ifPrio d steps :=
+  ifPrio_eq_spec w steps d hd hs
+
 /-! ### non-vacuity: premises are satisfiable on non-trivial instances (a 65-bit and a 3-bit operand, sign policy) -/
 
 example : Spec.norm .none .sign (ofNat 65 (2^64 + 5)) [.t, .f, .t] =
@@ -231,6 +247,7 @@ example : Spec.norm .none .sign (ofNat 65 (2^64 + 5)) [.t, .f, .t] =
 example : (ofNat 65 (2^64 + 5)).allDef = true ∧ BV4.allDef [.t, .f, .t] = true := by decide
 example : (Spec.shift .left .rotate [.t, .f, .f] 1) = [.f, .t, .f] := by decide
 example : staticShift .right .last [.t, .f, .t] 7 = [.t, .t, .t] ∧ staticShift .left .rotate [.t, .f, .f] 4 = [.f, .t, .f] := ⟨rfl, rfl⟩
+example : Spec.ifChain [.t, .f] [.f, .f] [(1, [.t, .f]), (2, [.f, .t]), (1, [.t, .t])] = [.t, .t] := by decide
 example : smul .sign .none [.f, .t] [.t, .f, .f, .f] = .ok [.f, .t, .t, .t] ∧ toInt [.f, .t, .t, .t] = -2 := ⟨rfl, by decide⟩
 example : slt [.f, .t] [.t, .f] = .ok [.t] ∧ toInt [.f, .t] = -2 ∧ toInt [.t, .f] = 1 := ⟨rfl, by decide, by decide⟩
 
